@@ -9,7 +9,9 @@
    runs the consumers under recover.
 4. harness/server/c18_test.go lets the owner of every distinct record of those behaviours connect
    (userPanel.GetUser -> MakeValve) under recover.
-5. B2: TestVerifC18Linear records call/return events of 2-4 goroutines issuing overlapping requests (episodes with
+5. spec/UserDBPanel.tla (UserDB + the panel's live records, valve and usage queue): TLC enumerates every upload
+   history; TestVerifC18Panel replays them on the real userPanel/commitUpdate path over a real localManager.
+6. B2: TestVerifC18Linear records call/return events of 2-4 goroutines issuing overlapping requests (episodes with
    a full read-back) and TLC validates the recording against UserDBTrace.tla (linearizability w.r.t. UserDB);
    a permutation search in Go is the second formulation; a forced LIST schedule runs first."""
 import concurrent.futures
@@ -35,6 +37,7 @@ ASSUME = [
 
 FIELDS = ["SessionsCap", "UpRate", "DownRate", "UpCredit", "DownCredit", "ExpiryTime"]
 V5 = ["min", "m1", "z", "p1", "max"]
+PTAG = '<<"C18PANEL", '
 TAG = '<<"C18BEHAVIOUR", '
 
 
@@ -85,12 +88,35 @@ def plan(ctx):
     return runs, mc
 
 
-def extract(r, fh):
+def panel_plan(ctx):
+    """Upload histories (spec/UserDBPanel.tla): every history of exactly DEPTH steps that ends with an upload round.
+    Steps: admin POST (write classes as in UserDB) / DELETE (at most MAXADMIN), owner connects, traffic (up, down),
+    last session ends, upload round. Steps that cannot happen are not offered (traffic without live record, ...)."""
+    rnd = random.Random(ctx.seed * 31 + 7)
+    third = rnd.choice(["SessionsCap", "UpRate", "DownRate", "DownCredit"])
+    q = ctx.quick()
+
+    def sub(puids, depth, maxadmin, onef, onev, allv, none, upu, dnu):
+        d = gen_subst(depth, onef, onev, [], [], allv, none, upu, dnu)
+        d.update({"PUIDS": S(puids), "MAXADMIN": maxadmin, "GUARD": "TRUE"})
+        return d
+    return [
+        # one owner; record all:=1, admin changes UpCredit / ExpiryTime / a seed-chosen field to 0 or -1 or deletes;
+        # traffic (0,1) (1,0) (1,1): up, down, both, and expiry exhausted in one round, rounds twice in a row
+        ("hist_deep", sub(["u1"], 6 if q else 7, 3, ["UpCredit", "ExpiryTime", third], ["z", "m1"], ["p1"], False, ["z", "p1"], ["z", "p1"])),
+        # every record class: all := each value, each single field := each value, the empty write; traffic (1,1)
+        ("hist_wide", sub(["u1"], 6 if q else 7, 2, FIELDS, V5, V5, True, ["p1"], ["p1"])),
+        # two owners in the same rounds
+        ("hist_two", sub(["u1", "u2"], 6 if q else 7, 2, ["UpCredit"], ["z"], ["p1"], False, ["p1"], ["p1"])),
+    ]
+
+
+def extract(r, fh, tag=TAG):
     """Copies the behaviours TLC printed into the ndjson file (one JSON document per line)."""
     n = 0
     for line in r.out.splitlines():
-        if line.startswith(TAG) and line.endswith(">>"):
-            fh.write(json.loads(line[len(TAG):-2]))  # the TLA+ string literal uses JSON's escapes
+        if line.startswith(tag) and line.endswith(">>"):
+            fh.write(json.loads(line[len(tag):-2]))  # the TLA+ string literal uses JSON's escapes
             fh.write("\n")
             n += 1
     r.out = ""
@@ -120,6 +146,8 @@ def run(ctx):
         tag, subst, sim = item
         if tag == "linear":
             return tag, linear(ctx)
+        if tag.startswith("hist_"):
+            return tag, lib.run_tlc(ctx, "UserDBPanel", "UserDBPanel.cfg", subst, workers=per, tag=tag, timeout=1500, env=jenv)
         if tag == "mc":
             return tag, lib.run_tlc(ctx, "UserDB", "UserDB_mc.cfg", subst, workers=per, tag="mc", timeout=1500, env=jenv)
         if sim:
@@ -129,23 +157,32 @@ def run(ctx):
                                 tag="gen_" + tag, timeout=1500, env=jenv)
 
     # the concurrent driver runs first, next to the TLC jobs (no other go run is active: one overlay file)
-    items = [("linear", None, None), ("mc", mc, None)] + runs
+    items = [("linear", None, None), ("mc", mc, None)] + runs + [(t, sb, None) for t, sb in panel_plan(ctx)]
     lin = None
+    hinp = os.path.join(ctx.work, "c18_histories.ndjson")
+    hcounts = {}
+    hfh = open(hinp, "w")
     with open(inp, "w") as fh, concurrent.futures.ThreadPoolExecutor(max_workers=len(items)) as ex:
         for tag, r in ex.map(one, items):
             if tag == "linear":
                 lin = r
                 continue
             lib.require_ok(r, tag)
+            if tag.startswith("hist_"):
+                hcounts[tag] = extract(r, hfh, PTAG)
+                ctx.tlc_runs[[t["tag"] for t in ctx.tlc_runs].index(tag)]["behaviours"] = hcounts[tag]
+                ctx.log("gen %s: %d upload histories (%d states, %.1fs)" % (tag, hcounts[tag], r.distinct, r.wall))
+                continue
             if tag == "mc":
                 ctx.log("model check UserDB depth %s: %d distinct states, %.1fs" % (mc["DEPTH"], r.distinct, r.wall))
                 continue
             counts[tag] = extract(r, fh)
             ctx.tlc_runs[[t["tag"] for t in ctx.tlc_runs].index("gen_" + tag)]["behaviours"] = counts[tag]
             ctx.log("gen %s: %d behaviours (%d states, %.1fs)" % (tag, counts[tag], r.distinct, r.wall))
+    hfh.close()
     total = sum(counts.values())
-    if not total or any(v == 0 for v in counts.values()):
-        raise lib.Inconclusive("TLC produced no behaviours in %s" % counts)
+    if not total or any(v == 0 for v in counts.values()) or any(v == 0 for v in hcounts.values()):
+        raise lib.Inconclusive("TLC produced no behaviours in %s %s" % (counts, hcounts))
 
     env = {"VERIF_IN": inp, "GOGC": "400"}  # allocation-heavy (httptest), small live heap
     env.update(tmp_env())
@@ -155,6 +192,17 @@ def run(ctx):
     srv = lib.run_go(ctx, "server", "TestVerifC18Connect", env=env, harness_dirs=["server"], timeout=1500)
     lib.collect_go(ctx, srv)
     ctx.log("connect: %d distinct records, %d violations" % (srv["stats"].get("distinct_records", 0), len(srv["violations"])))
+    henv = dict(env)
+    henv["VERIF_IN"] = hinp
+    pan = lib.run_go(ctx, "server", "TestVerifC18Panel", env=henv, harness_dirs=["server"], timeout=1500)
+    lib.collect_go(ctx, pan, died_key="process-died:upload-history")
+    ctx.log("upload histories: %d replayed, %d with a TERMINATE answer for a UID without live record, %d violations" % (
+        pan["stats"].get("histories", 0), pan["stats"].get("histories_with_terminate_for_no_live_record", 0), len(pan["violations"])))
+    if pan["stats"].get("undecodable", 0):
+        raise lib.Inconclusive("the panel driver could not decode %d histories" % pan["stats"]["undecodable"])
+    if pan["stats"].get("panel_state_diff", 0):
+        ctx.notes.append("live records / usage queue differing from UserDBPanel (logged, not deciding): %d; e.g. %s" % (
+            pan["stats"]["panel_state_diff"], (pan.get("notes") or ["?"])[:3]))
     diffs = res["stats"].get("consumer_result_diff", 0) + srv["stats"].get("consumer_result_diff", 0)
     if diffs:
         ctx.notes.append("consumer verdicts differing from the model (logged, not deciding): %d; e.g. %s" % (
@@ -163,8 +211,11 @@ def run(ctx):
         raise lib.Inconclusive("the driver could not decode %d behaviours" % res["stats"]["undecodable"])
     status = {k: v for k, v in res["stats"].items() if k.startswith("status:")}
     cov = {
-        "evaluations": res["evaluations"] + srv["evaluations"] + lin["evaluations"],
-        "distinct_nontrivial": res["distinct_nontrivial"] + srv["distinct_nontrivial"] + lin["distinct_nontrivial"],
+        "evaluations": res["evaluations"] + srv["evaluations"] + lin["evaluations"] + pan["evaluations"],
+        "distinct_nontrivial": res["distinct_nontrivial"] + srv["distinct_nontrivial"] + lin["distinct_nontrivial"] + pan["distinct_nontrivial"],
+        "upload_histories_per_run": hcounts,
+        "upload_histories_with_terminate_for_no_live_record": pan["stats"].get("histories_with_terminate_for_no_live_record", 0),
+        "panel_state_diff": pan["stats"].get("panel_state_diff", 0),
         "concurrent_episodes": lin["stats"].get("episodes", 0),
         "concurrent_episodes_overlapped": lin["stats"].get("episodes_overlapped", 0),
         "trace_events_validated": lin["stats"].get("trace_events", 0),
@@ -175,12 +226,15 @@ def run(ctx):
                 "usage upload; after every step GET u1, GET u2, LIST are compared with the model's store. non-trivial = an "
                 "accepted write of a proper subset of the fields, or a rejected request / reopen after an accepted write; "
                 "distinct = distinct operation lists. connect: every distinct record of the expected stores, non-trivial = "
-                "partial record or refused connection. concurrent (B2): episodes of 2-4 overlapping POST/DELETE/upload/GET/LIST "
+                "partial record or refused connection. upload histories: every history of UserDBPanel of the stated depth "
+                "that ends with an upload round (admin POST/DELETE, connect, traffic, last session ends, round), replayed on "
+                "the real userPanel (GetUser, valve, CloseSession, updateUsageQueue + commitUpdate) over a real localManager; "
+                "non-trivial = a TERMINATE answer met no live record, or the admin changed a connected owner's record. concurrent (B2): episodes of 2-4 overlapping POST/DELETE/upload/GET/LIST "
                 "on 1-2 UIDs from 2-4 goroutines after a sequential set-up, each followed by GET u1, GET u2, LIST; the "
                 "call/return recording is validated by TLC against UserDBTrace (state change = silent UserDB action "
                 "between call and return); non-trivial = at least 2 concurrent operations" % ", ".join("%s=%d" % kv for kv in sorted(counts.items())),
         "samples": res["samples"] + srv["samples"] + lin["samples"][:1],
-        "traces_validated_against_impl": total + (lin["stats"].get("episodes", 0) if lin["_accepted"] else 0),
+        "traces_validated_against_impl": total + sum(hcounts.values()) + (lin["stats"].get("episodes", 0) if lin["_accepted"] else 0),
         "behaviours_replayed": total,
         "behaviours_per_run": counts,
         "steps_replayed": res["stats"].get("steps", 0),
@@ -243,6 +297,10 @@ def replay(ctx, path):
     rp = json.load(open(path))
     env = {"VERIF_REPLAY": os.path.abspath(path)}
     env.update(tmp_env())
+    if "history" in (rp.get("replay") or {}):
+        res = lib.run_go(ctx, "server", "TestVerifC18Panel", env=env, harness_dirs=["server"], extra_args=["-v"])
+        print(open(os.path.join(res["_out_dir"], "go.out")).read())
+        return 0
     if "episode" in (rp.get("replay") or {}) or "schedule" in (rp.get("replay") or {}):
         res = lib.run_go(ctx, "usermanager", "TestVerifC18Linear", env=env, extra_args=["-v"])
         print(open(os.path.join(res["_out_dir"], "go.out")).read())
